@@ -265,6 +265,26 @@ def decide_path(unit, ctx, res, rng, tier):
     for label, b in ctx.checks:
         res['obligations'] += 1
         pending.append((label, b, None, None, None))
+    for label, script, on_sat in ctx.raw_obligations:
+        res['obligations'] += 1
+        t0 = time.time()
+        sol = E.z3.Solver()
+        sol.set('timeout', int(timeout))
+        sol.from_string(script)
+        r = str(sol.check())
+        res['queries'] += 1
+        res['solver_s'] += time.time() - t0
+        if r == 'unsat':
+            res['discharged'] += 1
+        elif r == 'sat':
+            m = sol.model()
+            model = {dd.name(): str(m[dd]) for dd in m.decls()}
+            if on_sat is None or on_sat(model):
+                res['violations'].append(_write_replay(unit, {'smt_model': model}, [[label, 'solver model %s' % model]], label))
+            else:
+                res['inconclusive'].append('%s: %s: sat model not confirmed on the real code' % (unit.name, label))
+        else:
+            res['inconclusive'].append('%s: %s: solver unknown' % (unit.name, label))
     for label, ok in ctx.facts:
         res['facts'] += 1
         if not ok:
